@@ -23,34 +23,34 @@ import (
 // so that load attempts are counted from the openat calls on the main file, not inferred from wall-clock time.
 
 type c15Cfg struct {
-	MaxAttempts int     `json:"max_attempts"`
-	BaseNS      int64   `json:"base_ns"`
-	MaxNS       int64   `json:"max_ns"`
-	FactorNum   int64   `json:"factor_num"` // factor = num / 2^den_log2 (dyadic: exact in binary64)
-	FactorDen   int64   `json:"factor_den"`
+	MaxAttempts int   `json:"max_attempts"`
+	BaseNS      int64 `json:"base_ns"`
+	MaxNS       int64 `json:"max_ns"`
+	FactorNum   int64 `json:"factor_num"` // factor = num / 2^den_log2 (dyadic: exact in binary64)
+	FactorDen   int64 `json:"factor_den"`
 }
 
 type c15Case struct {
-	ID       int     `json:"id"`
-	Seed     int64   `json:"seed"`
-	Main     string  `json:"main"`     // good missing dir unreadable malformed empty
-	Personal string  `json:"personal"` // absent good malformed dir unreadable
-	Backup   string  `json:"backup"`   // absent good empty emptylist stale
-	Cfg      c15Cfg  `json:"cfg"`
-	MainN    int     `json:"main_n"`
-	PersN    int     `json:"pers_n"`
+	ID       int    `json:"id"`
+	Seed     int64  `json:"seed"`
+	Main     string `json:"main"`     // good missing dir unreadable malformed empty
+	Personal string `json:"personal"` // absent good malformed dir unreadable
+	Backup   string `json:"backup"`   // absent good empty emptylist stale
+	Cfg      c15Cfg `json:"cfg"`
+	MainN    int    `json:"main_n"`
+	PersN    int    `json:"pers_n"`
 	// observed
-	Nil       bool     `json:"nil_db"`
-	Err       bool     `json:"err"`
-	DBN       int      `json:"db_n"`
-	First     [][]int  `json:"first"` // command strings of the returned database
-	Attempts  int      `json:"attempts"`
-	GapsNS    []int64  `json:"gaps_ns"`
-	Delays    []int64  `json:"delays"` // calculateDelay(1..4) as the code computes it (ns)
-	Searched  bool     `json:"searched"`
-	ChildFail string   `json:"child_fail,omitempty"`
-	Embedded  [][]int  `json:"embedded"` // the built-in fallback lists, read from the built code (hook VerifBuiltins)
-	Minimal   [][]int  `json:"minimal"`
+	Nil       bool    `json:"nil_db"`
+	Err       bool    `json:"err"`
+	DBN       int     `json:"db_n"`
+	First     [][]int `json:"first"` // command strings of the returned database
+	Attempts  int     `json:"attempts"`
+	GapsNS    []int64 `json:"gaps_ns"`
+	Delays    []int64 `json:"delays"` // calculateDelay(1..4) as the code computes it (ns)
+	Searched  bool    `json:"searched"`
+	ChildFail string  `json:"child_fail,omitempty"`
+	Embedded  [][]int `json:"embedded"` // the built-in fallback lists, read from the built code (hook VerifBuiltins)
+	Minimal   [][]int `json:"minimal"`
 }
 
 const c15Good = `- command: "git status"
